@@ -64,6 +64,7 @@ P = {
          "Every fault class named by the property (missing directory, path is a directory, read-only location via EACCES/EROFS, device full via /dev/full and injected ENOSPC at the first and at the k-th write, plus EIO/EDQUOT/EMFILE, short writes, EINTR) is provoked for SVG and PNG output; the shim logs every fault actually delivered; Ok(()) requires the file to equal the in-memory rendering, a delivered hard fault requires Err(_) through ConvertError::from and a normal exit.",
          "Faults are injected at the libc boundary; kernel-level partial failures (e.g. at close/fsync) are not modelled because the code under test does not call them.", "5/C19"),
 }
+REL_NOTE = " Every run ends with a release-profile stage: the same monitors re-run the quick workload (other seeds) against fast_qr compiled at opt-level 3 without overflow checks and debug assertions; jobs are executed in a seeded shuffled order so every worker thread sees big and small symbols interleaved."
 ALL = ["C%02d" % i for i in range(1, 20)]
 
 def main():
@@ -82,8 +83,8 @@ def main():
                 "replay_cmd_template": "./check replay {path}",
                 "engine": "vcheck",
                 "level_claimed": {"category": cat, "text": text, "design_ref": f"DESIGN.md section {ref}"},
-                "level_note": note,
-                "technique": tech,
+                "level_note": note + REL_NOTE,
+                "technique": tech + "; release-profile stage (same monitors against fast_qr built without overflow checks / debug assertions)",
             })
         else:
             na.append({"property_id": pid, "reason": "check under construction in this session; the technique applies (see DESIGN.md section 5) and the entry moves to checks once its monitor is built and silent on the unchanged tree"})
@@ -103,7 +104,7 @@ def main():
         ],
         "checks": checks,
         "not_applicable": na,
-        "notes": "Exit codes: 0 held on everything observed, 1 VIOLATION, 2 INCONCLUSIVE (never on the unchanged tree). VERIF_SEED varies payloads/histories/schedules; deterministic boundary sweeps do not depend on it.",
+        "notes": "./check builds the harness twice from /repo's working tree (profiles verif and verifrel, in parallel). Exit codes: 0 held on everything observed, 1 VIOLATION, 2 INCONCLUSIVE (never on the unchanged tree). VERIF_SEED varies payloads/histories/schedules; deterministic boundary sweeps do not depend on it.",
     }
     with open(os.path.join(ROOT, "MANIFEST.json"), "w") as f:
         json.dump(m, f, indent=1)
